@@ -80,6 +80,14 @@ PROPS = {
             'level_note': LEDGER_NOTE + ' ' + MODEL_NOTE + ' ASSUMED, not proved: solve_geom_system returns the interpolant / least-squares fit (LAPACK QR and triangular '
                           'solves are opaque), hence "equals A for linear residuals" is a consequence of an assumption.',
             'not_decided': ['the matrix equals the fit (LAPACK)', 'make_full_rank SVD perturbation']},
+    'C16': {'bundles': ['model'], 'level': 'proof',
+            'level_text': 'Partial claim: (i) base-shift invariance — shift_base leaves every absolute point, the model value at every fixed absolute point, the residual vector '
+                          'assembled by build_full_model (hence g and H) and the Jacobian unchanged (real vector arithmetic, linear matvec); (ii) the cached factorisation is never stale: '
+                          'a ghost geometry version is bumped by every point-set mutator and factorisation_current implies the cached version is the current one (class invariant), so a '
+                          'missing "factorisation_current = False" is a refuted class invariant; (iii) build_full_model returns g = 2 J^T r, H = 2 J^T J.',
+            'level_note': MODEL_NOTE + ' NOT decided: reproduction of the data by the fit, least-squares orthogonality, L_k(y_j) = delta_kj — these are statements about LAPACK QR / triangular '
+                          'solves (solve_geom_system, interpolation_matrix preconditioning), which are opaque here; add_new_sample can move kopt without clearing the flag (O5, unreachable from solve).',
+            'not_decided': ['data reproduction / least-squares orthogonality / Lagrange identities (LAPACK)', 'interpolation_matrix preconditioning']},
     'C17': {'bundles': ['model'], 'level': 'proof',
             'level_text': 'The bookkeeping statement is a class invariant of Model, established by __init__ and preserved by each of the seven mutators from any state '
                           'satisfying it (induction over all operation histories), with full-view postconditions (every other record unchanged) and exact NaN semantics.',
